@@ -92,7 +92,12 @@ pub trait Metadata {
     fn duration(&self) -> Option<std::time::Duration> {
         const NANOS_PER_SEC: u64 = 1_000_000_000;
 
+        // a sample rate of 0 indicates a non-audio stream,
+        // which has no meaningful duration
         let sample_rate = u64::from(self.sample_rate());
+        if sample_rate == 0 {
+            return None;
+        }
 
         self.total_samples().map(|s| {
             std::time::Duration::new(
